@@ -8,6 +8,8 @@ import (
 	"path/filepath"
 	"strconv"
 	"strings"
+
+	"golang.org/x/tools/go/packages"
 )
 
 // SExpr is a specification expression.
@@ -45,6 +47,15 @@ type FuncSpec struct {
 	Line      int
 	File      string
 	Params    []string // for interface/func-type contracts: parameter names
+	Sets      []GhostSet // ghost assignments performed in the caller when the call returns
+	Ghosts    []GhostSet // ghost variables of the function with their entry values
+}
+
+// GhostSet is "name = expr".
+type GhostSet struct {
+	Name string
+	Type string
+	E    *SExpr
 }
 
 type LoopSpec struct {
@@ -88,20 +99,41 @@ type SpecSet struct {
 func LoadSpecs(p *Program) (*SpecSet, error) {
 	ss := &SpecSet{Funcs: map[string]*FuncSpec{}, Loops: map[string]*LoopSpec{}, Types: map[string]*TypeSpec{},
 		Pures: map[string]*PureFunc{}, Lemmas: map[string]*NamedExpr{}}
-	for _, pkg := range p.Pkgs {
-		for _, f := range pkg.CompiledGoFiles {
-			if filepath.Base(f) != "verif_contracts.go" {
-				continue
-			}
-			b, err := os.ReadFile(f)
-			if err != nil {
-				return nil, err
-			}
-			ss.Files = append(ss.Files, f)
-			if err := ss.parseFile(ShortPkg(pkg.PkgPath), f, string(b)); err != nil {
-				return nil, err
+	// contract files of the loaded packages and of every repository package they import
+	seen := map[string]bool{}
+	var visit func(path string, imports map[string]*packages.Package)
+	addDir := func(pkgPath string) error {
+		if seen[pkgPath] {
+			return nil
+		}
+		seen[pkgPath] = true
+		if p.ModPath == "" || !(pkgPath == p.ModPath || strings.HasPrefix(pkgPath, p.ModPath+"/")) {
+			return nil
+		}
+		f := filepath.Join(p.RepoDir, strings.TrimPrefix(strings.TrimPrefix(pkgPath, p.ModPath), "/"), "verif_contracts.go")
+		b, err := os.ReadFile(f)
+		if err != nil {
+			return nil
+		}
+		ss.Files = append(ss.Files, f)
+		return ss.parseFile(ShortPkg(pkgPath), f, string(b))
+	}
+	var firstErr error
+	visit = func(path string, imports map[string]*packages.Package) {
+		if err := addDir(path); err != nil && firstErr == nil {
+			firstErr = err
+		}
+		for ip, ipkg := range imports {
+			if !seen[ip] {
+				visit(ip, ipkg.Imports)
 			}
 		}
+	}
+	for _, pkg := range p.Pkgs {
+		visit(pkg.PkgPath, pkg.Imports)
+	}
+	if firstErr != nil {
+		return nil, firstErr
 	}
 	return ss, nil
 }
@@ -118,7 +150,7 @@ func (ss *SpecSet) parseFile(pkg, file, text string) error {
 	}
 	var items []item
 	kw := map[string]bool{"func": true, "loop": true, "type": true, "pure": true, "lemma": true, "requires": true, "ensures": true,
-		"modifies": true, "decreases": true, "invariant": true, "inv": true, "owns": true, "mode": true, "trusted": true, "iface": true, "functype": true}
+		"modifies": true, "decreases": true, "invariant": true, "inv": true, "owns": true, "mode": true, "trusted": true, "iface": true, "functype": true, "sets": true, "ghost": true}
 	for i, ln := range lines {
 		t := strings.TrimSpace(ln)
 		if !strings.HasPrefix(t, "//@") {
@@ -287,6 +319,28 @@ func (ss *SpecSet) parseFile(pkg, file, text string) error {
 		case "mode":
 			if curF != nil {
 				curF.Mode = rest
+			}
+		case "sets", "ghost":
+			if curF == nil {
+				return errf("%s outside func", first)
+			}
+			i := strings.Index(rest, "=")
+			if i < 0 {
+				return errf("%s needs name = expr", first)
+			}
+			e, err := parse(rest[i+1:])
+			if err != nil {
+				return err
+			}
+			lhs := strings.Fields(strings.TrimSpace(rest[:i]))
+			gs := GhostSet{Name: lhs[0], E: e}
+			if len(lhs) > 1 {
+				gs.Type = lhs[1]
+			}
+			if first == "sets" {
+				curF.Sets = append(curF.Sets, gs)
+			} else {
+				curF.Ghosts = append(curF.Ghosts, gs)
 			}
 		case "trusted":
 			if curF != nil {
